@@ -19,6 +19,27 @@ if os.environ.get("VERIF_REPO"):
     sys.path.insert(0, os.environ["VERIF_REPO"])
 
 
+def _classify_exception(mod, task, exc):
+    """An exception that escapes an engine is a harness error, unless it was raised by the code
+    under test (innermost frame inside the torchtree package): then the run died inside
+    torchtree in a place no oracle wraps, which no run on the unchanged tree does, and it is
+    reported as a violation whose replay re-runs the whole task."""
+    tb = traceback.format_exc()
+    frames = traceback.extract_tb(exc.__traceback__)
+    # frames of the code under test that sit below the last harness frame (the exception may
+    # surface inside torch, called by torchtree)
+    last_harness = max([i for i, f in enumerate(frames) if "/verif/" in f.filename] or [-1])
+    sut = [f for f in frames[last_harness + 1 :] if "/torchtree/" in f.filename.replace("\\", "/") and "/verif/" not in f.filename and "/site-packages/" not in f.filename]
+    inner = sut[-1] if sut else None
+    if inner is None or type(exc).__name__ in ("SimCrash", "KeyboardInterrupt", "MemoryError"):
+        return {"harness_error": tb[-6000:]}
+    where = "%s:%s" % (inner.filename.split("/torchtree/")[-1], inner.name)
+    sig = {"engine": getattr(mod, "ENGINE", "?"), "oracle": "exception_in_code_under_test", "exception": type(exc).__name__, "where": where}
+    return {"sut_exception": True, "digest": "exception",
+            "violations": [{"signature": sig, "message": "the code under test raised %s in %s while the simulator was driving it:\n%s" % (type(exc).__name__, where, tb[-1500:]),
+                            "scenario": {"whole_task": task}, "engine": getattr(mod, "ENGINE", "?"), "found_by": "task %s" % json.dumps(task)[:200]}]}
+
+
 def main():
     engine = sys.argv[1]
     faulthandler.enable()
@@ -35,10 +56,14 @@ def main():
             continue
         rec = json.loads(line)
         sys.stdout = io.StringIO()
+        task = rec["task"]
+        rerun = task.get("kind") == "replay" and isinstance(task.get("scenario"), dict) and "whole_task" in task["scenario"]
         try:
-            res = mod.run_task(rec["task"])
-        except BaseException:  # noqa: BLE001 - includes SimCrash leaking = harness bug
-            res = {"harness_error": traceback.format_exc()[-6000:]}
+            res = mod.run_task(task["scenario"]["whole_task"] if rerun else task)
+            if rerun:
+                res = {"violations": [], "digest": res.get("digest")}  # the recorded exception did not occur
+        except BaseException as e:  # noqa: BLE001
+            res = _classify_exception(mod, task["scenario"]["whole_task"] if rerun else task, e)
         real_out.write("@@R " + json.dumps({"i": rec["i"], "result": res}) + "\n")
         real_out.flush()
 
